@@ -808,6 +808,32 @@ func fieldsModel(in *Interp, st *State, x *smt.Term) []Alt {
 		})}
 	}
 	K := in.Cfg.SplitMax
+	// Fields(a·c) with c a constant that starts with white space is
+	// Fields(a) ++ Fields(c) (exact); reuse a's decomposition on this path.
+	if x.Op == "str.++" {
+		last := x.Args[len(x.Args)-1]
+		if last.IsConst() && len(last.S) > 0 && strings.ContainsRune(" \t\n\v\f\r", rune(last.S[0])) {
+			base := smt.Concat(x.Args[:len(x.Args)-1]...)
+			if prev, ok := st.Ghost["fields:"+fmt.Sprint(base.ID())].([]Value); ok {
+				elems := append([]Value(nil), prev...)
+				for _, p := range strings.Fields(last.S) {
+					elems = append(elems, smt.StrC(p))
+				}
+				return []Alt{effRet(func(st *State) Value {
+					st.Ghost["fields:"+fmt.Sprint(x.ID())] = elems
+					return newSlice(in, st, elems)
+				})}
+			}
+		}
+	}
+	if prev, ok := st.Ghost["fields:"+fmt.Sprint(x.ID())].([]Value); ok {
+		return []Alt{effRet(func(st *State) Value {
+			if len(prev) == 0 {
+				return SliceV{Arr: in.alloc(st, &ArrayV{})}
+			}
+			return newSlice(in, st, prev)
+		})}
+	}
 	var alts []Alt
 	for n := 0; n <= K; n++ {
 		n := n
@@ -840,7 +866,18 @@ func fieldsModel(in *Interp, st *State, x *smt.Term) []Alt {
 				}
 				cat = append(cat, w)
 			}
-			st.assume(smt.Eq(x, smt.Concat(cat...)))
+			eq := smt.Eq(x, smt.Concat(cat...))
+			st.assume(eq)
+			if n > 0 {
+				d := &Decomposition{Eq: eq, X: x}
+				for _, e := range elems {
+					d.Parts = append(d.Parts, e.(*smt.Term))
+				}
+				for i := 0; i < len(cat); i += 2 {
+					d.Seps = append(d.Seps, cat[i])
+				}
+				registerDecomp(d)
+			}
 			st.Trace = append(st.Trace, fmt.Sprintf("fields=%d", n))
 			st.Ghost["fields:"+fmt.Sprint(x.ID())] = elems
 			if n == 0 {
